@@ -34,11 +34,12 @@ func HostileValues(cur uint64, width int, remaining int) []uint64 {
 		max = ^uint64(0)
 	}
 	c := []uint64{0, 1, 2, 7, 8, 9, 11, 12, 13, 127, 128, 255, 256, 65535, 65536, 1<<24 - 1, 1 << 24, 1<<31 - 1, 1 << 31, 1<<32 - 1,
-		1<<32 - 2, 1<<32 - 12, 1<<32 - 128, 1<<32 - 132, 0x80000000 + 12, 0xFFFFFF00,
+		1<<32 - 2, 1<<32 - 4, 1<<32 - 8, 1<<32 - 12, 1<<32 - 16, 1<<32 - 128, 1<<32 - 132, 0x80000000 + 12, 0xFFFFFF00,
 		cur + 1, cur - 1, cur + 12, cur - 12, cur * 2, cur + 4096, uint64(remaining), uint64(remaining) + 1, uint64(remaining) - 1,
 		max, max - 1, max / 2, max/2 + 1, (1 << 32) - cur, (1 << 32) - cur + 1}
 	if width == 4 {
 		if Full {
+			c = append(c, 1<<32-6, 1<<32-10, 1<<32-14, 1<<32-20, 1<<32-24)
 			c = append(c, WrapValues(remaining)...)
 		} else {
 			for _, m := range []uint64{2, 12} {
